@@ -51,7 +51,10 @@ func run(pass *analysis.Pass) (any, error) {
 		}
 
 		call := node.(*ast.CallExpr)
-		sel := call.Fun.(*ast.SelectorExpr)
+		sel, ok := ast.Unparen(call.Fun).(*ast.SelectorExpr)
+		if !ok {
+			continue
+		}
 		if !code.IsCallToAny(pass, sel.X, "text/template.New", "html/template.New") {
 			// TODO(dh): this is a cheap workaround for templates with
 			// different delims. A better solution with less false
